@@ -68,6 +68,10 @@ def _env():
   e["PYTHONHASHSEED"] = e.get("VERIF_HASHSEED", "0")
   e["PYTHONPATH"] = HERE + os.pathsep + e.get("PYTHONPATH", "")
   e["MJWARP_VERIF_SIM"] = "1"
+  repo = os.environ.get("VERIF_REPO")
+  if repo and repo != "/repo":
+    # checks normally import /repo (editable install); a scratch copy is put in front of it explicitly
+    e["PYTHONPATH"] = repo + os.pathsep + e["PYTHONPATH"]
   e.setdefault("OMP_NUM_THREADS", "1")
   e.setdefault("OPENBLAS_NUM_THREADS", "1")
   e.setdefault("MKL_NUM_THREADS", "1")
@@ -126,6 +130,8 @@ def run_jobs(pid, jobs_chunks, build, tier, workdir, workers, timeout, deadline=
   running = {}
   results, crashes = [], []
   skipped = 0
+  retried = set()
+  retry_count = [0]
 
   def start(ci, chunk):
     jf = os.path.join(workdir, f"job{ci}.json")
@@ -145,6 +151,16 @@ def run_jobs(pid, jobs_chunks, build, tier, workdir, workers, timeout, deadline=
         p, chunk = running.pop(ci)
         res, started, done = read_results(p.outfile)
         results.extend(res)
+        if not done and ci not in retried and not p.timed_out:
+          # a worker death can be infrastructure (e.g. two interpreters JIT-compiling the same module into the shared cache at the
+          # same moment): re-run the unfinished jobs of this chunk once in a fresh interpreter; only a death that repeats is kept
+          finished = {r["idx"] for r in res}
+          rest = [j for j in chunk if j.get("idx") not in finished]
+          retried.add(ci)
+          if rest:
+            pending.append((ci, rest))
+            retry_count[0] += 1
+            continue
         if not done:
           finished = {r["idx"] for r in res}
           last = [s for s in started if s not in finished]
@@ -238,7 +254,7 @@ def check(pid, tier, seed=None, replay=None, workers=None, budget_s=None):
   workdir = os.path.join(cache_dir(), "runs", f"{pid}-{tier}-{os.getpid()}")
   shutil.rmtree(workdir, ignore_errors=True)
   os.makedirs(workdir, exist_ok=True)
-  repdir = os.path.join(HERE, "replays", pid)
+  repdir = os.path.join(os.environ.get("VERIF_REPLAY_DIR", os.path.join(HERE, "replays")), pid)
   os.makedirs(repdir, exist_ok=True)
   known = load_known()
   prune_caches()
@@ -268,6 +284,12 @@ def check(pid, tier, seed=None, replay=None, workers=None, budget_s=None):
   chunks = [jobs[i : i + chunk] for i in range(0, nruns, chunk)]
   results, crashes, skipped = run_jobs(pid, chunks, build, tier, workdir, workers, cfg.get("timeout_s", 600), deadline=t0 + budget_s)
 
+  try:
+    first_log = open(os.path.join(workdir, "out0.jsonl.log")).read()
+    src = [ln for ln in first_log.splitlines() if ln.startswith("mujoco_warp imported from")]
+    print(f"[{pid}] {src[0] if src else 'mujoco_warp import location not logged'} (source hash {src_hash()})", flush=True)
+  except Exception:
+    pass
   errors = [r for r in results if r["status"] == "error"]
   viols = [r for r in results if r["status"] == "violation"]
   harness_error = False
@@ -375,8 +397,9 @@ def check(pid, tier, seed=None, replay=None, workers=None, budget_s=None):
 
   # ---- evidence
   ev = merge_evidence(mod, pid, tier, seed, results, time.time() - t0, len(reported), skipped, crashes, known_hits)
-  os.makedirs(os.path.join(HERE, "evidence"), exist_ok=True)
-  json.dump(ev, open(os.path.join(HERE, "evidence", f"{pid}.json"), "w"), indent=1, default=str)
+  evdir = os.environ.get("VERIF_EVIDENCE_DIR", os.path.join(HERE, "evidence"))
+  os.makedirs(evdir, exist_ok=True)
+  json.dump(ev, open(os.path.join(evdir, f"{pid}.json"), "w"), indent=1, default=str)
 
   for kid, (k, n) in known_hits.items():
     print(f"KNOWN-FINDING: property={pid} {k['what']} [{kid}; fired in {n} run(s)]")
